@@ -81,7 +81,13 @@ Fixpoint canon_dir (fuel : nat) (tbl : matchtable) (d : dir) : dir :=
           (* the order of the servers of an upstream (and of the lines of a split_clients or map block with distinct
              keys) does not change what NGINX does: compare them sorted *)
           let body' := match b with Some body => Some (map (canon_dir f tbl) body) | None => None end in
-          Dir n a' (if seqb n "upstream" then match body' with Some l => Some (sort_dirs l) | None => None end else body')
+          let distinct_keys l := Nat.eqb (List.length l) (List.length (nodup string_dec (map (fun e => lower (d_name e)) l))) in
+          Dir n a' (if seqb n "upstream" then match body' with Some l => Some (sort_dirs l) | None => None end
+                    else if seqb n "map" then match body' with
+                                             | Some l => if distinct_keys l then Some (sort_dirs l) else body'
+                                             | None => None
+                                             end
+                    else body')
       end
   end.
 
